@@ -5,6 +5,7 @@ Scenario tree, built once through the real client API on 3 real storage servers:
                   -> rolink  = READ-cap of sub2 (dir) -> g.txt (CHK), mm.txt (mutable, stored with
                                its write-cap inside sub2), d3 (dir, write-cap stored inside sub2)
                   -> a_sub2  = WRITE-cap of the same sub2 (sorts, and is unpacked, before rolink)
+                  -> locked  = sub3 (dir) linked with metadata no-write=true, then re-pointed without metadata
                   -> imm     = immutable directory -> h.txt (CHK)
 Read-only entry points: every directory / mutable file through its read-cap and verify-cap, plus
 every path from the root write-cap that passes through `rolink` or `imm`.
@@ -64,6 +65,13 @@ def build(seed):
         # the same object is ALSO linked writeably from the same directory, under a name that is
         # unpacked first: a node cache keyed too coarsely would hand the writeable node to `rolink`
         w(root.set_uri(u"a_sub2", sub2.get_uri(), sub2.get_readonly_uri()))
+        # a link marked "no-write" (docs/frontends/webapi.rst: such a link to a mutable child is diminished
+        # to read-only), later re-pointed at the same write-cap WITHOUT metadata: the mark stays, so must the
+        # diminishing
+        sub3 = w(nm.create_new_mutable_directory())
+        w(sub3.set_uri(u"k.txt", None, f.get_uri()))
+        w(root.set_uri(u"locked", sub3.get_uri(), sub3.get_readonly_uri(), metadata={"no-write": True}))
+        w(root.set_uri(u"locked", sub3.get_uri(), sub3.get_readonly_uri()))
         h = w(c.upload(Data(lib_imm.payload(82, seed, b"h"), convergence=b"c")))
         imm = w(nm.create_immutable_directory({u"h.txt": (nm.create_from_cap(h.get_uri()), {})}))
         w(root.set_uri(u"imm", None, imm.get_uri()))
@@ -73,12 +81,12 @@ def build(seed):
             "sub": sub.get_uri(), "sub_ro": sub.get_readonly_uri(),
             "sub2": sub2.get_uri(), "sub2_ro": sub2.get_readonly_uri(), "sub2_v": sub2.get_verify_cap().to_string(),
             "d3": d3.get_uri(), "m": m.get_uri(), "m_ro": m.get_readonly_uri(), "m_v": m.get_verify_cap().to_string(),
-            "mm": mm.get_uri(), "mm_ro": mm.get_readonly_uri(), "imm": imm.get_uri(), "f": f.get_uri(),
+            "mm": mm.get_uri(), "mm_ro": mm.get_readonly_uri(), "imm": imm.get_uri(), "f": f.get_uri(), "sub3": sub3.get_uri(),
         }
         _SCN.update(snap=g.save_disk(), caps={k: v.decode() for k, v in caps.items()})
         # secrets that must never appear in a response obtained through a read-only entry point
         secrets = []
-        for k in ("root", "sub", "sub2", "d3", "m", "mm"):
+        for k in ("root", "sub", "sub2", "d3", "m", "mm", "sub3"):
             u = tahoe_uri.from_string(caps[k])
             inner = u.get_filenode_cap() if hasattr(u, "get_filenode_cap") else u
             from allmydata.util import base32
@@ -106,6 +114,7 @@ def ro_dirs(caps):
         ("sub2_v", U + q(caps["sub2_v"]), "g.txt", "mm.txt", "d3"),
         ("root/rolink", U + q(caps["root"]) + "/rolink", "g.txt", "mm.txt", "d3"),
         ("root/rolink/d3", U + q(caps["root"]) + "/rolink/d3", None, None, None),
+        ("root/locked", U + q(caps["root"]) + "/locked", "k.txt", None, None),
         ("imm", U + q(caps["imm"]), "h.txt", None, None),
         ("root/imm", U + q(caps["root"]) + "/imm", "h.txt", None, None),
     ]
